@@ -26,7 +26,10 @@ func WithFetchDepth(depth int) FetchOption {
 }
 
 func (r *Repository) PushRefSpec(remoteName string, refSpecs []string) error {
-	args := []string{"push", remoteName}
+	// The references are pushed atomically: either all of them are updated on
+	// the remote or none is, so that, for example, the RSL is never published
+	// without the references its new entries record.
+	args := []string{"push", "--atomic", remoteName}
 	args = append(args, refSpecs...)
 
 	_, err := r.executor(args...).executeString()
